@@ -141,6 +141,12 @@ class Sim:
         self.faults = {}
         for f in faults or []:
             self.faults[(f["task"], f["op"])] = f
+        # CPython 3.12.1 crashes (SIGSEGV in an inlined comprehension) when a trace function raises - which unsets and
+        # later re-arms tracing - while another thread is suspended inside code instrumented for per-instruction
+        # events.  Runs that inject interrupts therefore pre-empt at line granularity only.
+        import os
+        if self.faults or os.environ.get("PBSIM_NO_OPCODE"):
+            self.opcode = False
         self.events = 0
         self.steps = 0
         self.switches = 0
